@@ -170,6 +170,12 @@ func (m *Machine) needYield(th *Thread, op string) bool {
 		m.logSched(th, op)
 		return false
 	}
+	// Synchronisation operations inside library code (context, io.Pipe, ...) are not scheduling points of their own:
+	// a library call runs as one atomic step unless it blocks (DESIGN.md 2.4). This also keeps the engine's schedules
+	// replayable, since only kit and harness sources are instrumented for native replay.
+	if !m.atInstrumentedSite() {
+		return false
+	}
 	if th.granted {
 		th.granted = false
 		m.logSched(th, op)
@@ -723,4 +729,12 @@ func (m *Machine) declined(in intrinsic, th *Thread, fr *Frame, f FuncV, args []
 	}()
 	m.lastIntrRes, m.lastIntrSt = in(m, th, fr, f, args)
 	return false
+}
+
+func (m *Machine) atInstrumentedSite() bool {
+	pos := m.curPos
+	if m.deferPos.IsValid() {
+		pos = m.deferPos
+	}
+	return m.L.Instr().schedSite(m.L.Fset, pos) != ""
 }
